@@ -50,6 +50,9 @@ ifeq ($(filter sched.cc,$(SRCS)),)
 DEFS := $(filter-out -DSIM_HAVE_SCHED,$(DEFS))
 endif
 OBJS := $(patsubst %.cc,$(B)/sim_obj/%.o,$(SRCS)) $(B)/sim_obj/steps_asm.o
+ifeq ($(VARIANT),tsi)
+OBJS += $(B)/sim_obj/canary_tsi.o
+endif
 INC := -I$(REPO)/src -I$(B) -Isim
 
 all: $(B)/sim
@@ -77,7 +80,16 @@ $(B)/sim_obj/steps_asm.o: sim/steps_asm.S
 	@mkdir -p $(B)/sim_obj
 	$(CC) -c $< -o $@
 
+# Instrumented like libdraco (harness-side canary for the sched engine).
+$(B)/sim_obj/canary_tsi.o: sim/canary_tsi.cc
+	@mkdir -p $(B)/sim_obj
+	$(CXX) -std=c++17 -O1 -g -fsanitize=thread -c $< -o $@
+
 $(B)/sim: $(OBJS) $(B)/libdraco.a
 	$(CXX) -no-pie $(LINK_$(VARIANT)) -o $@ $(OBJS) $(B)/libdraco.a -lpthread -ldl
+ifeq ($(VARIANT),tsi)
+	# Writable static storage of the executable: address size name.
+	nm -S --defined-only -C $@ | awk '$$3 ~ /^[bBdD]$$/ { a=$$1; s=$$2; $$1=$$2=$$3=""; gsub(/^ +/,""); gsub(/ /,"_"); print a, s, $$0 }' > $@.statics
+endif
 
 .PHONY: all
